@@ -15,6 +15,10 @@ CHECKS["C02"] = dict(cat="model_checking", ref="DESIGN.md 4/C02",
     text="Symbolic execution of decode(encode(m)), encode three times, encode(decode(encode(m))) and decode-twice-into-one-object for every class in the decoder tables over all field values of a concrete shape; z3 decides each path. Bounded by list length.",
     note="Same bounds and trusted base as C01; call histories limited to the four compositions named. Purity compares the bytes of repeated encodes and the caller-set fields (fields encode() computes for itself, e.g. MEI paging outputs, are outputs not inputs).",
     technique=TECH)
+CHECKS["C03"] = dict(cat="model_checking", ref="DESIGN.md 4/C03",
+    text="buildPacket and the whole receive path of all five framers are executed symbolically for every message class: the packet equals the reference ADU (MBAP / unit+PDU+CRC low byte first / ':'+upper hex+LRC+CRLF / bare PDU / '{'..'}') and a fresh framer fed the packet delivers exactly one equal message with unit/tid/pid preserved, for all unit ids, transaction ids and field values. The CRC table code and LRC are proved equal to the standards' definitions by direct AST->z3 translation (K1 step lemma + induction argument, K2).",
+    note="computeCRC appears inside framer harnesses as an uninterpreted step function folded over the data (so CONFIRMED holds for any checksum; K1 ties the real one to CRC-16/Modbus); computeLRC as its closed form (K2). PDU conformance itself is C01 (the ADU wraps the library's own PDU). Quick: one shape per class; thorough: all shapes. Binary-framer frames containing delimiter bytes and multi-word diagnostic responses on RTU are listed known findings.",
+    technique=TECH)
 NA_REASON = "check not built yet in this revision (work in progress; see DESIGN.md build order)"
 
 def main():
